@@ -80,8 +80,10 @@ def on_tick(h: Any, tick: Any, adapter: Any) -> None:
     for ws in h.pre_state.workers.values():
         for w in ws.collected_waiters:
             if w.has_requirements and not w.requirements and w.resolved_event is None \
-                    and w.waiting_for_event is type(tick.event):
-                # a waiter restored from a snapshot whose step has not registered its requirements again yet
+                    and w.waiting_for_event is type(tick.event) \
+                    and (any(a.event is w.event for a in ws.queue) or any(ip.event is w.event for ip in ws.in_progress)):
+                # a waiter restored from a snapshot whose step has been re-queued to register the requirements again
+                # but has not got there yet
                 h.c10_unknown_req = True
             if (w.resolved_event is not None or getattr(w, "timed_out", False)) and w.waiting_for_event is type(tick.event) and all(
                     getattr(tick.event, k, None) == v for k, v in w.requirements.items()):
